@@ -18,6 +18,15 @@ func init() {
 			mode := g.Pick("sync", "async", "async", "timed", "hot")
 			script := genScript(g, 10, 5, "CCE--", mode == "timed")
 			sc.Sources = []SrcSpec{{Mode: mode, Script: script}}
+			if mode == "async" && g.Bool(0.4) {
+				// one source called from several goroutines through a serialising constructor
+				sc.Sources[0].Ctor = g.Pick("safe", "default", "eventually")
+				sc.Sources[0].Producers = g.Range(2, 3)
+			}
+			if mode == "hot" && g.Bool(0.6) {
+				sc.Sources[0].Subject = subjectKinds[g.Intn(len(subjectKinds))]
+				sc.Sources[0].SubjectBuf = g.Range(0, 2)
+			}
 			n := g.PickInt(0, 1, 1, 2, 3)
 			if g.Bool(0.7) {
 				sc.Sub = "sync"
